@@ -645,6 +645,10 @@ struct Monitors {
     allocs: BTreeMap<(u32, String), AllocShadow>,
     /// queues resumed by the user that have not submitted since, not been paused by the user and not seen a new failure
     armed: BTreeSet<u32>,
+    /// per queue, from the scripted handler answers alone (independent of the limiter state the real code keeps):
+    /// (consecutive failed submission attempts since the last success / resume, lower bound on the back-off level,
+    /// time of the last attempt)
+    shadow: BTreeMap<u32, (u64, usize, Option<u64>)>,
     fails: Vec<(String, String, String)>,
 }
 
@@ -656,6 +660,8 @@ impl Monitors {
     #[allow(clippy::too_many_arguments)]
     fn check(&mut self, op: &Op, pre: &VerifSnapshot, post: &VerifSnapshot, events: &[VerifEvent], env: &Env,
              resp_ok: bool, tick_res: Option<Option<bool>>) {
+        // a queue that did not exist before this op starts with a fresh history
+        self.shadow.retain(|q, _| queue_of(pre, *q).is_some());
         // ---------------- C17: limits (state invariant)
         for q in &post.queues {
             if queued_count(q) > q.backlog as u64 {
@@ -735,6 +741,42 @@ impl Monitors {
                     }
                 }
             }
+            // the same judged from the scripted answers alone: consecutive failed attempts of EITHER kind (rejected by
+            // the batch system, or the allocation directory could not be created) stop submissions and raise the back-off
+            let mut seen: BTreeSet<u32> = BTreeSet::new();
+            for (qid, _, r) in &env.submit_log {
+                let Some(q) = queue_of(pre, *qid) else { continue };
+                let sh = self.shadow.entry(*qid).or_insert((0, 0, None));
+                let (sf, lb, last) = *sh;
+                if seen.insert(*qid) {
+                    if sf >= q.limiter.max_submission_fails {
+                        self.fails.push(("c17.silent".into(), "submit-after-consecutive-submission-failures".into(),
+                            format!("queue {qid}: {sf} consecutive failed submission attempts (limit {}), yet another attempt at {now}", q.limiter.max_submission_fails)));
+                    }
+                    let need = q.limiter.delays_ms[lb.min(q.limiter.delays_ms.len() - 1)..].iter().min().copied().unwrap_or(0);
+                    if let Some(t) = last {
+                        if now.saturating_sub(t) < need {
+                            self.fails.push(("c17.silent".into(), "submit-before-backoff-elapsed".into(),
+                                format!("queue {qid}: attempt at {now}, previous attempt at {t}, {sf} failure(s) in a row since the last success require a delay of at least {need} ms")));
+                        }
+                    }
+                }
+                let sh = self.shadow.get_mut(qid).unwrap();
+                sh.2 = Some(*now);
+                match r {
+                    VerifSubmit::Ok(_) => { sh.0 = 0; sh.1 = 0; }
+                    VerifSubmit::Fail | VerifSubmit::Err => { sh.0 += 1; sh.1 += 1; }
+                }
+            }
+            if tick_res.is_some() {
+                for q in &post.queues {
+                    let sf = self.shadow.get(&q.id).map(|s| s.0).unwrap_or(0);
+                    if sf >= q.limiter.max_submission_fails && q.active {
+                        self.fails.push(("c17.pause_limit".into(), "active-after-consecutive-submission-failures".into(),
+                            format!("queue {}: {sf} consecutive failed submission attempts (limit {}) and the queue is still active after the tick", q.id, q.limiter.max_submission_fails)));
+                    }
+                }
+            }
             // the calls of one tick stay inside what the limits allow for the answered demand
             for (qid, calls) in &per_queue {
                 if let (Some(q), Some(d)) = (queue_of(pre, *qid), answers.get(qid)) {
@@ -775,10 +817,20 @@ impl Monitors {
                 self.armed.remove(qid);
             }
         }
+        // an allocation that ends may reset the back-off level (`on_allocation_success`): drop the lower bound
+        for q in &post.queues {
+            if let Some(pq) = queue_of(pre, q.id) {
+                let fin = |x: &VerifQueue| x.allocations.iter().filter(|a| !is_queued(&a.state) && !is_active(&a.state)).count();
+                if fin(q) != fin(pq) {
+                    if let Some(sh) = self.shadow.get_mut(&q.id) { sh.1 = 0; }
+                }
+            }
+        }
         // arming / disarming
         match op {
             Op::Resume { q } if resp_ok => {
                 self.armed.insert(*q);
+                if let Some(sh) = self.shadow.get_mut(q) { sh.0 = 0; }
             }
             Op::Pause { q } => {
                 self.armed.remove(q);
